@@ -615,6 +615,7 @@ namespace bluetoe {
                  out_size >= 3 )
             {
                 auto read = details::attribute_access_arguments::read( output + 3, output + out_size, 0, connection.client_configurations(), connection.security_attributes(), this );
+                read.type = details::attribute_access_type::notification_read;
                 auto attr = attribute_at( data.attribute_table_index() );
                 auto rc   = attr.access( read, data.attribute_table_index() );
 
